@@ -768,6 +768,16 @@ def stepLine (d : Driver) (toks : List String) : Driver × List String :=
     -- kernel thread asynchronously; the last handle waits for that before it closes the ring
     -- (`Shared::drop`, fix 5ae3e32): the descriptor is closed exactly once and nothing is left queued.
     if !d.live then (d, ["bad-op"]) else (d, ["sqpoll-last-handle closes=1 left=0 open=0"])
+  | ["teardown", "disabled-drop", n] =>
+    -- A ring created disabled (`Config::disable()`) and never enabled, of its own: `n` reads are
+    -- started — queued, never submitted: `io_uring_enter` is refused with EBADFD —, abandoned, and
+    -- the Ring is dropped. As the code stands nothing reclaims their state: no completion will ever
+    -- arrive for a submission the kernel never saw (known finding F24; C12 demands `freed=n/n` —
+    -- the harness oracle judges that).
+    if !d.live then (d, ["bad-op"]) else
+    match parseNat n with
+    | some n => if 1 ≤ n ∧ n ≤ 6 then (d, [s!"disabled-drop freed=0/{n}"]) else (d, ["bad-op"])
+    | none => (d, ["bad-op"])
   | ["teardown", "defer-drop", n, b] =>
     -- A single-issuer ring with deferred completions (IORING_SETUP_DEFER_TASKRUN) of its own: `n`
     -- reads in flight are abandoned, then the Ring is dropped while the kernel hands over at most
